@@ -747,8 +747,53 @@ def run_c25(tier):
         ops.insert(0, {"op": "repl_use", "x": {"who": "master"}})
         cases.append({"id": "lag%d" % ln, "ops": ops})
         lag_meta.append((ln, c, ngr))
+    # ---- the real replication.Sender in the chain (its channel and goroutine), one slow delivery: corrections of ONE record in
+    # consecutive transactions must reach the replica in commit order
+    ord_meta = []
+    for on in range(2 if quick else 8):
+        c = ReplConc(rng, 950 + on, 1, False)
+        tfsec = TFSEC[c.tfF] if hasattr(c, "tfF") else 60
+        ep = year_start(2022) + (50 + on) * DAY + 9 * 3600
+        ep -= ep % tfsec
+        nv = rng.choice([3, 4, 6])
+        ops = [{"op": "repl_use", "x": {"who": "master"}}, {"op": "repl_real_sender", "x": {"slow_first_ms": rng.choice([30, 60])}}]
+        for k in range(nv):
+            ops.append({"op": "write", "buckets": [{"key": c.keyF, "cols": [{"name": "Epoch", "type": "i8", "vals": [ep]},
+                                                                            {"name": "V", "type": "i4", "vals": [500 + k]}]}]})
+        ops.append({"op": "repl_sync", "x": {"wait": nv}})
+        ops.append({"op": "repl_cmp", "x": {"keys": [c.keyF]}})
+        ops.append({"op": "repl_real_sender", "x": {"off": True}})
+        for who in ("replica", "master"):
+            ops.append({"op": "repl_use", "x": {"who": who}})
+            ops.append({"op": "destroy", "key": c.keyF})
+        cases.append({"id": "ord%d" % on, "ops": ops})
+        ord_meta.append((on, c, nv))
     vlib.log("[C25] %d histories concretised after %.0fs, replaying" % (len(meta), __import__("time").time() - res.t0))
     obs = vlib.run_cases(binary, cases, timeout=1500 if quick else 7000)
+    for on, c, nv in ord_meta:
+        o = obs.get(json.dumps("ord%d" % on))
+        replay = {"check": "repl.real_sender_order", "key": c.keyF, "versions": nv, "seed": vlib.seed()}
+        if o is None or (isinstance(o, dict) and "died" in o):
+            res.violation("master or replica died in the real-sender scenario: %s" % str(o)[-300:], replay)
+            continue
+        wr = o[2:2 + nv]
+        if any(x.get("err") or x.get("panic") for x in wr):
+            raise Undecided("a master write of the real-sender scenario failed: %s" % [x for x in wr if x.get("err") or x.get("panic")][:1])
+        sy, cm = o[2 + nv], o[3 + nv]
+        if sy.get("driver_error") or cm.get("driver_error"):
+            raise Undecided("driver error in the real-sender scenario: %s" % str(sy)[:200])
+        if len(sy.get("tgs", [])) != nv:
+            res.violation("%d transactions were committed on the master while the replica was connected through replication.Sender; %d reached it" % (nv, len(sy.get("tgs", []))), replay)
+            continue
+        m = rows_of(cm["master"][c.keyF], c.keyF)
+        r = rows_of(cm["replica"][c.keyF], c.keyF)
+        res.cov["traces_validated_against_impl"] += 1
+        if [e for e in sy.get("replay", []) if e]:
+            res.violation("real sender: replaying the transmitted transaction groups failed on the replica: %s" % [e for e in sy["replay"] if e][:2], replay)
+        elif m != r:
+            res.violation("%d successive versions of one record were committed on the master and transmitted through replication.Sender (first delivery slow): "
+                          "after the replica applied every transmitted transaction, %s holds %s on the master and %s on the replica" % (nv, c.keyF, str(m)[:200], str(r)[:200]), replay)
+    res.cov["real_sender_order_histories"] = len(ord_meta)
     for ln, c, ngr in lag_meta:
         o = obs.get(json.dumps("lag%d" % ln))
         replay = {"check": "repl.lagging_replica", "key": c.keyF, "groups": ngr, "seed": vlib.seed()}
